@@ -645,6 +645,34 @@ structure ValidModel (s : Nat) {d : Nat} (m : Model (NodeD d)) : Prop where
   inlined : m.funcs = []
   nodes : ∀ n ∈ m.nodes, ValidD s (d + 1) n
 
+/-- A GroupNormalization node has its three inputs and its `num_groups` attribute (the only thing an adapter
+ever raises about: `adapter_raises_iff`). -/
+def WellFormedGN (op : Op) : Prop :=
+  ∀ n, op = .groupNorm n → (n.hasX = true ∧ n.hasScale = true ∧ n.hasBias = true) ∧ n.groups ≠ none
+
+/-- Purely structural description of a self-consistent model: written for `s`, no reference attribute, `P` of every
+default-domain operator; control-flow nodes own the subgraphs; custom-domain nodes own none. -/
+structure ShapeLeaf (P : Op → Prop) (s : Nat) (l : Leaf) : Prop where
+  ver : l.dflt = true → l.eff s = s
+  noRef : l.dflt = true → l.refAttr = false
+  op : l.dflt = true → P l.op
+
+structure ShapeNode {α} (P : Op → Prop) (s : Nat) (Q : α → Prop) (n : Node α) : Prop where
+  leaf : ShapeLeaf P s n.leaf
+  ctrl : n.bodies ≠ [] → ∃ name, n.leaf.op = .plain name
+  bodies : ∀ b ∈ n.bodies, ∀ a ∈ b, Q a
+  customFlat : n.leaf.dflt = false → n.bodies = []
+
+def ShapeD (P : Op → Prop) (s : Nat) : (d : Nat) → NodeD d → Prop
+  | 0 => fun l => ShapeLeaf P s l
+  | d + 1 => fun n => ShapeNode (α := NodeD d) P s (ShapeD P s d) n
+
+structure ShapeModel (P : Op → Prop) (s : Nat) {d : Nat} (m : Model (NodeD d)) : Prop where
+  declared : m.declared = some s
+  noAi : m.aionnx = none
+  inlined : m.funcs = []
+  nodes : ∀ n ∈ m.nodes, ShapeD P s (d + 1) n
+
 /-- Every default-domain node of the model (subgraphs of every depth included) is written for `t`. -/
 def AllAt {α} [Inner α] (t : Nat) (ns : List (Node α)) : Prop :=
   ∀ n ∈ ns, ∀ l ∈ n.leaves, l.dflt = true → l.eff t = t
